@@ -38,6 +38,7 @@ class PE:
         self.memo = {}
         self.call_default = call_default or {}     # callee name -> value assumed for its result (e.g. status 0)
         self.out_default = {}                      # callee name -> {arg index: value stored through that &var argument}
+        self.memory = {}                           # address -> byte value (a small window of abstract buffer contents)
 
     # ---- expression evaluation with a key->value binding
     def _hook(self, bind, callvals):
@@ -73,6 +74,13 @@ class PE:
                     if bind[kk] == UNSURE:
                         raise r_mpt.Unknown()
                     return bind[kk]
+                if self.memory and (k == "sub" or (k == "un" and n.get("op") == "*")):
+                    try:
+                        a = self._addr(n, rec)
+                    except r_mpt.Unknown:
+                        a = None
+                    if a in self.memory:
+                        return self.memory[a]
                 if k in ("mem", "ref") and "t" in n and u.type(n["t"])["k"] == "arr":
                     return self._addr(n, rec)        # an array used as a pointer: its address
                 return None
@@ -151,6 +159,43 @@ class PE:
             return tab[lv["id"]]
         raise r_mpt.Unknown()
 
+    def explore(self, fn, start, bind, stops=(), depth=0):
+        """all outcomes from the start of block `start`: ('ret', value|None, sure) and ('stop', block, sure) when a block of
+        `stops` is entered (the start block itself counts only when re-entered)"""
+        outs = set()
+        seen = set()
+        work = [(start, bind, True, True)]
+        steps = 0
+        while work and steps < 4000:
+            steps += 1
+            bid, b, s, first = work.pop()
+            if bid in stops and not first:
+                outs.add(("stop", bid, s))
+                continue
+            st = (bid, tuple(sorted(b.items(), key=str)), s)
+            if st in seen:
+                continue
+            seen.add(st)
+            blk = fn.blocks[bid]
+            rets = [e for e in blk.elems if e.get("k") == "ret"]
+            for nb, s2, _ in self.step_block(fn, bid, b, s, depth):
+                if rets:
+                    r = rets[-1]
+                    if r.get("e") is None:
+                        outs.add(("ret", None, s2))
+                    else:
+                        for v, s3 in self.evals(r["e"], nb, depth):
+                            outs.add(("ret", v, s2 and s3))
+                    continue
+                for nx, nb2, s3 in self.branch(fn, bid, nb, s2, depth):
+                    if nx == fn.exit:
+                        outs.add(("ret", None, s3))
+                    else:
+                        work.append((nx, nb2, s3, False))
+        if work:
+            outs.add(("ret", None, False))
+        return outs
+
     def depends(self, e, bind):
         """is the value of e (partly) determined by the binding?  A value read from memory through a bound pointer is
         not: only the bound lvalues themselves, and calls that receive them, count."""
@@ -160,6 +205,8 @@ class PE:
         if k == "call" and e.get("fn") in self.call_default:
             return True
         if (k == "mem" and e.get("arrow")) or k == "sub" or (k == "un" and e.get("op") == "*"):
+            if self.memory and k != "mem":
+                return any(self.depends(c, bind) for c in core.children(e))
             return False
         return any(self.depends(c, bind) for c in core.children(e))
 
